@@ -525,7 +525,7 @@ theorem delete_ok_iff (ha : task.action = .Delete) {isDir : Bool} {st1 : SyncSta
     (hd : runM (ext.transferrer_delete transferrer task.dest_path isDir) w1 = (dres, w2))
     (h : runM (run_task ext task transferrer verifier stats dry json mode limiter pm) w = (.ok (res, st'), w')) :
     res = .ok () ↔
-      dres = .ok () ∨ ∃ e, dres = .error e ∧ ext.err_is_io e = true ∧ ext.io_error_kind e = ErrorKind.NotFound := by
+      dres = .ok () ∨ ∃ e, dres = .error e ∧ ext.err_is_io e = true ∧ goneKind ext e = true := by
   rw [← goneRule_ok_iff]
   rw [run_task_iff_ran] at h
   cases h with
@@ -545,7 +545,7 @@ theorem delete_ok_iff (ha : task.action = .Delete) {isDir : Bool} {st1 : SyncSta
 theorem delete_other_error_recorded (ha : task.action = .Delete) {isDir : Bool} {st1 : SyncStats} {w1 w2 : W} (e : Rs.Err)
     (hp : runM (deletePre ext task dry stats) w = (.ok (isDir, st1), w1))
     (hd : runM (ext.transferrer_delete transferrer task.dest_path isDir) w1 = (.error e, w2))
-    (hne : ¬ (ext.err_is_io e = true ∧ ext.io_error_kind e = ErrorKind.NotFound))
+    (hne : ¬ (ext.err_is_io e = true ∧ goneKind ext e = true))
     (h : runM (run_task ext task transferrer verifier stats dry json mode limiter pm) w = (.ok (res, st'), w')) :
     res = .error e ∧ st'.errors = stats.errors ++ [errorRecord task e] ∧ st'.files_deleted = stats.files_deleted ∧
       w' = w2 := by
@@ -573,7 +573,7 @@ theorem delete_other_error_recorded (ha : task.action = .Delete) {isDir : Bool} 
 theorem delete_not_found_counts (ha : task.action = .Delete) {isDir : Bool} {st1 : SyncStats} {w1 w2 : W} (e : Rs.Err)
     (hp : runM (deletePre ext task dry stats) w = (.ok (isDir, st1), w1))
     (hd : runM (ext.transferrer_delete transferrer task.dest_path isDir) w1 = (.error e, w2))
-    (hio : ext.err_is_io e = true) (hk : ext.io_error_kind e = ErrorKind.NotFound)
+    (hio : ext.err_is_io e = true) (hk : goneKind ext e = true)
     (h : runM (run_task ext task transferrer verifier stats dry json mode limiter pm) w = (.ok (res, st'), w')) :
     res = .ok () ∧ st'.files_deleted = stats.files_deleted + 1 ∧ st'.errors = stats.errors := by
   have hres : res = .ok () :=
